@@ -203,7 +203,8 @@ func specialTTYMirror(c *specialCtx) {
 		var out bytes.Buffer
 		tty := te.NewTTYFrontend(nil, &out)
 		be := &scriptBackend{}
-		vt := te.VerifNew(tty, be, te.TextReadModeRune, false)
+		fwd := &showCursorSpy{Frontend: tty, show: true}
+		vt := te.VerifNew(fwd, be, te.TextReadModeRune, false)
 		inner := vt.Terminal()
 		tty.SetTerminal(inner)
 		_ = inner.Resize(w, h)
@@ -267,11 +268,18 @@ func specialTTYMirror(c *specialCtx) {
 			// cursor: shown at the inner position, or hidden
 			showO := snapO.ViewFlags[int(te.VFShowCursor)]
 			inside := si.CX >= rx && si.CX < rx2 && si.CY >= ry && si.CY < ry2
-			showI := true // TTYFrontend starts with the cursor shown; follows ?25
-			if v, ok := ttyShow[tty]; ok {
-				showI = v
+			// the frontend shows the cursor until the inner terminal hides it (?25l); Attach shows it again
+			showI := fwd.show
+			if showI && inside && !showO {
+				c.violation("tty-cursor", fmt.Sprintf("%s: inner cursor (%d,%d) is visible and inside %+v but the outer cursor is hidden", where, si.CX, si.CY, region),
+					map[string]any{"case": cs, "region": []int{rx, ry, rx2, ry2}})
+				return false
 			}
-			_ = showI
+			if showO && !showI {
+				c.violation("tty-cursor", fmt.Sprintf("%s: the inner terminal hid the cursor but the outer cursor is shown", where),
+					map[string]any{"case": cs, "region": []int{rx, ry, rx2, ry2}})
+				return false
+			}
 			if showO && !(so.CX == si.CX && so.CY == si.CY) {
 				c.violation("tty-cursor", fmt.Sprintf("%s: outer cursor shown at (%d,%d), inner cursor (%d,%d) inside=%v", where, so.CX, so.CY, si.CX, si.CY, inside),
 					map[string]any{"case": cs, "region": []int{rx, ry, rx2, ry2}})
@@ -299,6 +307,7 @@ func specialTTYMirror(c *specialCtx) {
 			cs.Items = cs.Items[len(cs.Items)/2:]
 		}
 		tty.Attach(region)
+		fwd.show = true
 		if !compare("attach") {
 			return
 		}
@@ -326,7 +335,19 @@ func specialTTYMirror(c *specialCtx) {
 	})
 }
 
-var ttyShow = map[*te.TTYFrontend]bool{}
+// showCursorSpy forwards everything to the TTYFrontend and remembers what the inner terminal
+// last said about cursor visibility.
+type showCursorSpy struct {
+	te.Frontend
+	show bool
+}
+
+func (s *showCursorSpy) ViewFlagChanged(v te.ViewFlag, value bool) {
+	if v == te.VFShowCursor {
+		s.show = value
+	}
+	s.Frontend.ViewFlagChanged(v, value)
+}
 
 func filterItems(items []Item, keep func(Item) bool) []Item {
 	var out []Item
